@@ -118,4 +118,11 @@ theorem copyTo_below (w : View) (top : Nat) (m : Nat → α) (a : Nat) (ha : a <
   simp only [cloneView]
   omega
 
+theorem invTable_fold_size (w : View) (n : Nat) (l : List (Nat × Nat)) :
+    (List.foldr (fun p t => t.setIfInBounds (w.addr p.1 p.2) (some p)) (Array.replicate n none) l).size = n := by
+  induction l with
+  | nil => simp
+  | cons q l ih => simp [ih]
+
+
 end PP.ScanMem
